@@ -1,6 +1,6 @@
 (* C07 - More information never hurts: intervals shrink, every gap is non-increasing.
    Statements only; proofs in theories/SATight.v (knowledge monotonicity) and theories/NormsProofs.v (gap functions). *)
-From ICG Require Import Prelude Bits Table Bounds FoldLemmas BoundsSpec SASound SAEquiv SATight Checks.
+From ICG Require Import Prelude Bits Table Bounds FoldLemmas BoundsSpec SASound SAEquiv SATight Checks Shapley Exploit Norms NormsProofs GapsAlongReveals.
 
 (* K <= K' pointwise: both superadditive computers give pointwise tighter intervals under K'.
    Holds for any pair of tables holding the two knowledge sets (stale rows arbitrary), hence along any reveal sequence. *)
@@ -11,6 +11,38 @@ Theorem C07_sa_monotone_in_knowledge :
     forall s, bounded n s -> L r s <= L r' s /\ U r' s <= U r s.
 Proof. exact sa_monotone_in_knowledge. Qed.
 Print Assumptions C07_sa_monotone_in_knowledge.
+
+(* Consequently each offered gap function - l1, l-infinity, squared l2 (the l2 norm is its square root, monotone) and
+   exploitability - of the recomputed bounds is non-increasing when knowledge grows, and never negative.
+   width t S = upper - lower;  gaps_le n r' r : all four gaps of r' are <= those of r. *)
+Theorem C07_sa_gaps_along_reveals :
+  forall (c : computer) n v K K' t t' r r',
+    (c = CRef \/ c = CCached) -> SA n v -> v 0%N == 0 -> MinK n K -> (forall s, K s = true -> K' s = true) ->
+    agrees n t K v -> agrees n t' K' v -> compute c n t = Some r -> compute c n t' = Some r' ->
+    gaps_le n r' r /\ gaps_nonneg n r' /\ gaps_nonneg n r.
+Proof. exact sa_gaps_along_reveals. Qed.
+Print Assumptions C07_sa_gaps_along_reveals.
+
+(* ... and zero once every value is revealed *)
+Theorem C07_sa_gaps_zero_when_full :
+  forall (c : computer) n v K t r,
+    (c = CRef \/ c = CCached) -> SA n v -> v 0%N == 0 -> MinK n K -> (forall s, bounded n s -> K s = true) ->
+    agrees n t K v -> compute c n t = Some r -> gaps_zero n r.
+Proof. exact sa_gaps_zero_when_full. Qed.
+Print Assumptions C07_sa_gaps_zero_when_full.
+
+(* the gap functions themselves: monotone in the vector of interval widths, non-negative, zero on zero widths *)
+Theorem C07_gaps_monotone :
+  forall n w w', (forall S, bounded n S -> 0 <= w' S /\ w' S <= w S) ->
+    nm_l1 n w' <= nm_l1 n w /\ nm_linf n w' <= nm_linf n w /\ nm_l2sq n w' <= nm_l2sq n w /\ ex_wgap n w' <= ex_wgap n w.
+Proof. exact gaps_monotone. Qed.
+Print Assumptions C07_gaps_monotone.
+
+(* for the SAM approximations: any sound table (C04) has non-negative gaps *)
+Theorem C07_sound_table_gaps_nonneg :
+  forall n K v t t', v 0%N == 0 -> K 0%N = true -> (forall s, bounded n s -> sound_at n K v t t' s) -> gaps_nonneg n t'.
+Proof. exact sound_table_gaps_nonneg. Qed.
+Print Assumptions C07_sound_table_gaps_nonneg.
 
 Definition ex_v : N -> Q := game_of [0; -1; 2; 3; 1#2; 1; 4; 9].
 Definition ex_K : N -> bool := known_in [0; 1; 2; 4; 7]%N.
